@@ -172,6 +172,30 @@ func AndX(c *vf.Ctx, prefix string, depth int) objhist.Stats {
 	})
 }
 
+// OEMString: the object's exported BufferFormat may hold anything a caller (or an earlier decode of
+// another string type) left there; the OEM string is format 0x04 on the wire whatever it holds.
+func OEMString(c *vf.Ctx, prefix string, depth int) objhist.Stats {
+	var vs []objhist.Value
+	for _, f := range []byte{4, 0, 1, 2, 3, 5} {
+		f := f
+		vs = append(vs, objhist.Value{Name: fmt.Sprintf("BufferFormat=%d;SetString(NAME%d.TXT)", f, f), Set: func(o any) {
+			s := o.(*types.OEM_STRING)
+			s.BufferFormat = f
+			s.SetString(fmt.Sprintf("NAME%d.TXT", f))
+		}})
+	}
+	vs = append(vs, objhist.Value{Name: "SetString(empty)", Set: func(o any) { o.(*types.OEM_STRING).SetString("") }})
+	return objhist.Run(c, objhist.Spec{
+		Prefix: prefix + "/OEM_STRING",
+		New:    func() any { return types.NewOEM_STRING() },
+		Values: vs,
+		Encode: func(o any) ([]byte, error) { return o.(*types.OEM_STRING).Marshal() },
+		Decode: func(o any, b []byte) (int, error) { return o.(*types.OEM_STRING).Unmarshal(b) },
+		Fields: func(o any) string { return fmt.Sprintf("string=%q", o.(*types.OEM_STRING).GetString()) },
+		Depth:  depth,
+	})
+}
+
 // All runs every specification and returns the totals.
 func All(c *vf.Ctx, prefix string, depth int) (states, transitions int) {
 	add := func(s objhist.Stats) { states += s.States; transitions += s.Transitions }
@@ -182,5 +206,6 @@ func All(c *vf.Ctx, prefix string, depth int) (states, transitions int) {
 	add(Data(c, prefix, depth))
 	add(Parameters(c, prefix, depth))
 	add(AndX(c, prefix, depth))
+	add(OEMString(c, prefix, depth))
 	return
 }
